@@ -53,6 +53,7 @@ VH_NOINSTR int main(int argc, char** argv) {
   int k = atoi(argv[1]);
   vh_parse(argv[2]);
   fiber_manager_init(k);
+  VH_DIRTY(mtx);
   fiber_mutex_init(&mtx);
   vr_reg(&mtx.counter, sizeof mtx.counter, "counter");
   vr_reg((void*)&mtx.waiters.head, 8, "head");
